@@ -2803,13 +2803,13 @@ class sptensor:
                 subs1Idx = tt_setdiff_rows(self.allsubs(), unionSubs)
                 subs1 = self.allsubs()[subs1Idx]
             else:
-                subs1 = np.empty((0, self.ndims))
+                subs1 = np.empty((0, self.ndims), dtype=int)
             # find entries where x is nonzero but not equal to y
-            subs2 = np.empty((0, self.ndims))
+            subs2 = np.empty((0, self.ndims), dtype=int)
             if self.nnz > 0:
                 subs2 = self.subs[self.vals.transpose()[0] != other[self.subs], :]
             if subs2.size == 0:
-                subs2 = np.empty((0, self.ndims))
+                subs2 = np.empty((0, self.ndims), dtype=int)
             # put it all together
             return ttb.sptensor(
                 np.vstack((subs1, subs2)),
